@@ -36,6 +36,7 @@ class Contract:
         self.ghost_pre = d.get("ghost_pre", {})        # name -> expr, evaluated in the pre-state, usable in ensures
         self.param_assume = d.get("assume_params", True)
         self.ghost_code = list(d.get("ghost_code", []))     # [(statement prefix, [(ghost name, index text | None, value text)])]
+        self.comp_loops = dict(d.get("comp_loops", {}))       # loop contracts for comprehensions with effects, by ordinal
         self.path_ensures = dict(d.get("path_ensures", {}))   # name -> (trace marker, clause): obligations of marked paths only
         self.reveals = list(d.get("reveals", []))           # opaque spec functions whose definition this proof may open
         self.uses_lemmas = list(d.get("uses_lemmas", []))   # proved lemmas available as quantified facts inside this function
@@ -456,6 +457,9 @@ class ContractMixin:
                     axioms.append(z3.ForAll([r], z3.Implies(live, z3.And(z3.Select(H, r) > 0, z3.Select(H, r) < alloc0))))
                 elif kind.startswith("optref:"):
                     axioms.append(z3.ForAll([r], z3.Implies(live, z3.And(z3.Select(H, r) >= 0, z3.Select(H, r) < alloc0))))
+            elif k0 == "len":
+                # the length of a list that existed at entry is not negative
+                axioms.append(z3.ForAll([r], z3.Implies(live, z3.Select(H, r) >= 0)))
             elif k0 == "elems" and key[1] in ("ref", "any"):
                 ln = heap.initial.get(("len", key[1]))
                 if ln is None:
@@ -545,6 +549,8 @@ class ContractMixin:
         from .symex import EngineError
         s.frames = [dict(self._entry_env)]
         allowed = [e for e in c.raises if self.is_subclass(exc.cls, e)]
+        if exc.cls in allowed:
+            allowed = [exc.cls]        # the clause written for exactly this class speaks for it (InvalidNameError is a ValueError)
         if not allowed:
             self.oblige(s, "raises", f"no-{exc.cls}", z3.BoolVal(False), f"{exc.cls} escapes; the contract allows {sorted(c.raises) or 'no exception'}",
                         props=c.props)
